@@ -89,6 +89,10 @@ func screenCheck(hi *Hist, frames []*Frame, facts []*BarFacts, prop string) *Vio
 		for _, r := range f.Rows {
 			expected = append(expected, stripSGR(r.Text))
 		}
+		note("frames_emulated")
+		if c.Terminal && vt.H > 0 && len(f.Rows)+2 >= vt.H {
+			note("tight_terminal")
+		}
 		got := vt.Lines()
 		if d := diffLines(expected, got); d != "" {
 			return viol(prop, "screen-mismatch", "after frame %d the terminal (%dx%d) does not show the persisted lines followed by the current rows:\n%s", k, vt.W, vt.H, d)
@@ -153,6 +157,7 @@ func judgeC04(hi *Hist) []*Violation {
 	c := &hi.Sc.Cont
 	// silence without refresh on a non-terminal output
 	if c.Refresh == h.RefNone && !c.Terminal {
+		note("silence_checked")
 		if len(hi.Writes) > 0 {
 			return []*Violation{viol("C04", "not-silent", "the container has neither auto nor manual refresh and its output is not a terminal, yet %d writes reached the output, first: %q",
 				len(hi.Writes), clip(string(hi.Writes[0].Payload), 100))}
@@ -161,6 +166,7 @@ func judgeC04(hi *Hist) []*Violation {
 	}
 	// nothing before the render delay ends
 	if c.Delay {
+		note("delay_checked")
 		closed := len(hi.Log)
 		for _, op := range hi.Ops {
 			if op.Op.K == h.OpCloseDelay && op.R == 1 {
